@@ -735,6 +735,8 @@ func runC05(c *core.Ctx) {
 	c.Doc("C05.stated-events", "generated signal / property emitters encode, and generated subscribers decode, the signature advertised or asked for under that name", 10)
 	ruleStatedEmitters(c, "C05.stated-events")
 	ruleStatedSubscribers(c, "C05.stated-events")
+	ruleStatedAccessors(c, "C05.stated-events")
+	ruleValidatorDecodesDeclared(c, "C05.stated-events")
 }
 
 func stripFn(ts []etok) []etok {
